@@ -193,8 +193,12 @@ def hasWireForm (f : Fam) (reach : Bool) (kind seed : Nat) : Bool :=
     ([238, 239, 240, 241, 242, 254, 255, 256, 257, 4094, 4095, 4096].getD (seed % 12) 0) ≤ 4095
   else true
 
-/-- STRUCT ::= (vpn (LABEL*) (rd TYPE ADMIN ASSIGNED) xADDR MASK) | (lab (LABEL*) xADDR MASK): the structure of a
-    label-carrying NLRI, read off the Rust value through public fields (never through the encoder) -/
+/-- STRUCT ::= (vpn (LABEL*) RD xADDR MASK) | (lab (LABEL*) xADDR MASK) | (flow V6 (RD | none) (COMP*))
+             | (evpn ead RD xESI ETAG LABEL) | (evpn macip RD xESI ETAG xMAC xIP LABEL (LABEL | none))
+             | (evpn imet RD ETAG xIP) | (evpn es RD xESI xIP) | (evpn pfx RD xESI ETAG PLEN xIP xGW LABEL)
+    RD ::= (rd TYPE ADMIN ASSIGNED)    COMP ::= (p TYPE MASK OFFSET xADDR) | (n TYPE (BITS VALUE)*)
+    the structure of an NLRI whose codec is modelled, read off the Rust value through public fields (never through
+    the encoder) -/
 def struct? : Term → Option NStruct
   | .list [.atom "vpn", .list ls, .list [.atom "rd", t, a, n], addr, m] => do
       let ls ← ls.mapM (fun x => natLe? x 1048575)
@@ -209,13 +213,57 @@ def struct? : Term → Option NStruct
       let addr ← asBytes? addr
       let m ← natLe? m 128
       if addr.length = 4 ∨ addr.length = 16 then some (.lab ls addr m) else none
+  | .list [.atom "flow", v6, rd, .list comps] => do
+      let v6 ← natLe? v6 1
+      let rd ← (match rd with | .atom "none" => some none | t => (rd? t).map some)
+      let cs ← comps.mapM (comp? (v6 == 1))
+      pure (.flow (v6 == 1) rd cs)
+  | .list [.atom "evpn", .atom "ead", rd, esi, etag, l] => do
+      pure (.evpn (.ead (← rd? rd) (← fixed? esi 10) (← natLe? etag U32) (← natLe? l U32)))
+  | .list [.atom "evpn", .atom "macip", rd, esi, etag, mac, ip, l1, l2] => do
+      let l2 ← (match l2 with | .atom "none" => some none | t => (natLe? t U32).map some)
+      pure (.evpn (.macip (← rd? rd) (← fixed? esi 10) (← natLe? etag U32) (← fixed? mac 6) (← ip? true ip) (← natLe? l1 U32) l2))
+  | .list [.atom "evpn", .atom "imet", rd, etag, ip] => do
+      pure (.evpn (.imet (← rd? rd) (← natLe? etag U32) (← ip? false ip)))
+  | .list [.atom "evpn", .atom "es", rd, esi, ip] => do
+      pure (.evpn (.es (← rd? rd) (← fixed? esi 10) (← ip? false ip)))
+  | .list [.atom "evpn", .atom "pfx", rd, esi, etag, plen, ip, gw, l] => do
+      pure (.evpn (.pfx (← rd? rd) (← fixed? esi 10) (← natLe? etag U32) (← natLe? plen 255) (← ip? false ip) (← ip? false gw)
+        (← natLe? l U32)))
   | _ => none
+where
+  rd? : Term → Option Rd
+    | .list [.atom "rd", t, a, n] => do pure ⟨← natLe? t 2, ← natLe? a U32, ← natLe? n U32⟩
+    | _ => none
+  fixed? (t : Term) (n : Nat) : Option Bytes := do
+    let b ← asBytes? t
+    if b.length = n then some b else none
+  ip? (zero : Bool) (t : Term) : Option Bytes := do
+    let b ← asBytes? t
+    if b.length = 4 ∨ b.length = 16 ∨ (zero ∧ b.length = 0) then some b else none
+  op? : Term → Option FOp
+    | .list [b, v] => do pure ⟨← natLe? b 255, ← natLe? v 18446744073709551615⟩
+    | _ => none
+  comp? (v6 : Bool) : Term → Option FComp
+    | .list [.atom "p", ty, m, off, addr] => do
+        let addr ← asBytes? addr
+        if addr.length = (if v6 then 16 else 4) then
+          pure (.pfx (← natLe? ty 2) (← natLe? m 255) (← natLe? off 255) addr)
+        else none
+    | .list (.atom "n" :: ty :: ops) => do pure (.num (← natLe? ty 13) (← ops.mapM op?))
+    | _ => none
 
 /-- wire form of a structured NLRI: the bit count must fit the length octet (a labeled withdrawal carries one
     compatibility field instead of its stack) -/
 def structWire (reach : Bool) : NStruct → Bool
   | .vpn ls _ _ m => 24 * ls.length + 64 + m ≤ 255
   | .lab ls _ m => if reach then 24 * ls.length + m ≤ 255 else true
+  -- RFC 8955 §4.1: the rule (with the RD of the VPN form) must fit the 12-bit length
+  | .flow v6 rd cs =>
+      (match compsBytes v6 cs with
+       | .ok b => (if rd.isSome then 8 else 0) + b.length ≤ 4095
+       | _ => true)
+  | .evpn _ => true
 
 /-- PROBE ::= (ENC DEC) | (ENC DEC STRUCT) -/
 def probe? (w reach : Bool) (t : Term) : Option Nlri :=
